@@ -201,7 +201,7 @@ def c25(c):
     #    fairness of worker / publisher / revoker / track completion with the refresh timer on, no state constraint)
     # 2. deviations of the code from the reference found by TLC: counterexamples = witnesses for the real code
     # 3. behaviours of the reference for gate replay
-    cfgs = ['quick.cfg', 'quick_vl.cfg'] if quick else ['thorough.cfg', 'thorough_vl.cfg', 'quick.cfg']
+    cfgs = ['quick.cfg', 'quick_vl.cfg'] if quick else ['thorough.cfg', 'thorough2.cfg', 'thorough_vl.cfg']
     jobs = [_exh(c, 'SharedPoll', 'SharedPoll', x, workers=1 if quick else 2) for x in cfgs + ['live.cfg', 'live_vl.cfg']]
     nj = len(jobs)
     wcfgs = ['ascoded_flip.cfg', 'ascoded_removal.cfg', 'ascoded_epoch.cfg']
